@@ -219,10 +219,15 @@ class NonCovalentlyCoupledGroups:
             conformation.get_non_covalently_coupled_groups(),
             lambda g1, g2: g1 in g2.non_covalently_coupled_groups)
         _LOGGER.info(map_)
-        for system in conformation.get_coupled_systems(
-                conformation.get_non_covalently_coupled_groups(),
-                Group.get_non_covalently_coupled_groups):
-            self.print_system(conformation, list(system))
+        # The systems are sets of identity-hashed groups and have no
+        # reproducible order: use the order of the conformation's group list
+        groups = conformation.get_non_covalently_coupled_groups()
+        systems = [
+            [group for group in groups if group in system]
+            for system in conformation.get_coupled_systems(
+                groups, Group.get_non_covalently_coupled_groups)]
+        for system in sorted(systems, key=lambda s: groups.index(s[0])):
+            self.print_system(conformation, system)
 
     def print_system(self, conformation, system):
         """Print out something about the system.
